@@ -258,6 +258,9 @@ var (
 	epDelivered  atomic.Int64
 	epPackFails  atomic.Int64
 	epReceipts   atomic.Int64
+	// set once a payload could not be matched with its call: receipts can no longer
+	// be attributed, so the per-call exchange counts / results are not judged
+	epMisattributed atomic.Bool
 )
 
 func epViolate(key, what string, call *epCall, more map[string]any) {
@@ -339,6 +342,7 @@ func (u *epUp) ExchangeContext(ctx context.Context, m []byte) (*[]byte, error) {
 	}
 	switch {
 	case call == nil:
+		epMisattributed.Store(true)
 		epViolate("concurrent-forwards-payload-is-no-query-in-flight", fmt.Sprintf("upstream #%d of forward #%d (%d callers at once) received %d bytes that are not the packed form of any query given to a Forward: %s", u.idx, u.f.d.Idx, u.f.d.Callers, len(snap), hexHead(snap)), nil,
 			map[string]any{"forward": u.f.d, "received_hex": hexHead(snap), "in_flight": epInflightDescs()})
 		return nil, errScripted
@@ -350,15 +354,20 @@ func (u *epUp) ExchangeContext(ctx context.Context, m []byte) (*[]byte, error) {
 		if !byName {
 			how = "the bytes are not even parsable as / do not name any query in flight; this Forward had exactly this one call in flight"
 		}
+		epMisattributed.Store(true)
 		epViolate("concurrent-forwards-payload-differs-from-packed-query", fmt.Sprintf("upstream #%d of forward #%d received %d bytes that differ from Pack(qCtx.Q()) (%d bytes) at offset %d (%s); want %s got %s", u.idx, u.f.d.Idx, len(snap), len(call.want), firstDiff(snap, call.want), how, hexHead(call.want), hexHead(snap)), call,
 			map[string]any{"received_hex": hexHead(snap), "want_hex": hexHead(call.want), "first_difference_at": firstDiff(snap, call.want), "other_calls_in_flight": epInflightDescs()})
 	case call.f != u.f:
+		epMisattributed.Store(true)
 		epViolate("concurrent-forwards-query-delivered-to-another-forwards-upstream", fmt.Sprintf("upstream #%d of forward #%d received the (intact) query of a call that was made on forward #%d", u.idx, u.f.d.Idx, call.f.d.Idx), call, map[string]any{"receiving_forward": u.f.d})
 	default:
 		rep.Count("errpath_payloads_identical_to_packed_query", 1)
 		if call.d.PackFailuresBefore > 0 {
 			rep.Count("errpath_payloads_checked_after_a_pack_failure", 1)
 		}
+	}
+	if call.f != u.f {
+		return nil, errScripted // the script of another Forward's call does not apply here
 	}
 
 	// let the other callers run while we hold the payload
@@ -568,6 +577,10 @@ func epJudge(c *epCall) {
 	c.mu.Lock()
 	defer c.mu.Unlock()
 	if !c.done {
+		return
+	}
+	if epMisattributed.Load() {
+		rep.Count("errpath_calls_not_judged_after_payload_violation", 1)
 		return
 	}
 	L, n := c.f.d.Upstreams, clampC(c.f.d.C)
